@@ -1,6 +1,6 @@
 """check configuration for C11 (loaded by lib/zvprops.py)"""
 
-PROP = {'gen_tables': [],
+PROP = {'gen_tables': ['TransSampler'],
  'rule': 'ops: (1) exhaustive — N,M ≤ 2 (quick) / ≤ 4 (thorough) × every sequence of 5 (7) arrivals on one key over the classes '
          '{same ns, +1 ns, last ns of the window, exactly the window end, past the end}; (2) random sequences of (level, message, timestamp, '
          'core) with N,M,tick small and huge (tick also 0 and negative), enabled-level subsets incl. out-of-range levels, With-derived cores and '
